@@ -81,7 +81,12 @@ class RowCollector:
         if self._array:
             for n, name in enumerate(self._columns):
                 data = getattr(self,name)
-                new = np.array(values[n],dtype=data.dtype)
+                dtype = data.dtype
+                if dtype.kind in 'SU':
+                    # string arrays have a fixed item size (an empty one holds a single character):
+                    # take the scalar type so that the new value keeps its full length
+                    dtype = dtype.type
+                new = np.array(values[n],dtype=dtype)
                 setattr(self,name, np.append(data,new) )
         else:
             for n, name in enumerate(self._columns):
